@@ -1885,6 +1885,9 @@ func trLeanCall(cl trCall) string {
 
 const trChunk = 25
 
+// rows per kernel-evaluated declaration inside a chunk file (peak memory about 0.5 GB + 0.4 GB per row)
+const trPart = 5
+
 // oracle failures of the supplementary family (also listed in stats.extra)
 var trExtFindings []string
 
@@ -1928,12 +1931,8 @@ var trXMergeKnown = map[string]bool{
 	"x-merge(delete(10,15),merge(4,11))": true,
 }
 
-// the extension (server replay in both orders + snapshot-seeded third client) is kernel-evaluated on every
-// trExtStride-th row; all rows are covered by the exhaustive correspondence
-const trExtStride = 4
-
 // writeLeanTable writes the matrix as Lean source: the table (Model/TreeMatrixTable.lean) and one lemma
-// file per chunk of trChunk rows (Lemmas/TreeMatrixNN.lean), plus Lemmas/TreeMatrixAll.lean.
+// file per chunk of trChunk rows (Lemmas/TreeMatrixENN.lean: convergesExt on every row), plus Lemmas/TreeMatrixAll.lean.
 func writeLeanTable(c *Ctx) error {
 	fams, cases := trMatrix()
 	var sb strings.Builder
@@ -1981,33 +1980,53 @@ func writeLeanTable(c *Ctx) error {
 	// one lemma file per chunk and per statement, so that lake builds them in parallel and none takes long
 	hdr := "/- GENERATED by `yk-harness tree stream=leantable` together with Model/TreeMatrixTable.lean. -/\n" +
 		"import YorkieModel.Model.TreeMatrixTable\nnamespace Yorkie.Tree.Matrix\nopen Yorkie Yorkie.Tree\n\n"
-	var imports, cnames, enames []string
+	// The kernel keeps everything it evaluated until the declaration is finished (about 0.4 GB per row), so a chunk is
+	// proved in parts of trPart rows (memory is released between declarations) and the parts are glued by a lemma.
+	parts := "/- GENERATED by `yk-harness tree stream=leantable`. -/\nnamespace Yorkie.Tree.Matrix\n\n" +
+		"/-- a list property holds when it holds on the first `n` elements and on the rest -/\n" +
+		"theorem forall_mem_of_parts {α : Type} {p : α → Prop} (l : List α) (n : Nat)\n" +
+		"    (h1 : ∀ c ∈ l.take n, p c) (h2 : ∀ c ∈ l.drop n, p c) : ∀ c ∈ l, p c := by\n" +
+		"  intro c hc\n  rw [← List.take_append_drop n l, List.mem_append] at hc\n  exact hc.elim (h1 c) (h2 c)\n\nend Yorkie.Tree.Matrix\n"
+	if err := os.WriteFile(filepath.Join(c.Out, "TreeMatrixParts.lean"), []byte(parts), 0o644); err != nil {
+		return err
+	}
+	hdr = strings.Replace(hdr, "import YorkieModel.Model.TreeMatrixTable\n", "import YorkieModel.Model.TreeMatrixTable\nimport YorkieModel.Lemmas.TreeMatrixParts\n", 1)
+	var imports, enames []string
 	for k := 0; k < nch; k++ {
-		cf := fmt.Sprintf("TreeMatrixC%02d", k)
-		src := hdr + fmt.Sprintf("set_option maxRecDepth 100000 in\n/-- rows [%d, %d): the two editors converge and clone = root (kernel evaluation) -/\n"+
-			"theorem conv%02d : ∀ c ∈ chunk%02d, converges c = true := by decide +kernel\n\nend Yorkie.Tree.Matrix\n",
-			k*trChunk, min(len(cases), (k+1)*trChunk), k, k)
-		if err := os.WriteFile(filepath.Join(c.Out, cf+".lean"), []byte(src), 0o644); err != nil {
-			return err
-		}
 		ef := fmt.Sprintf("TreeMatrixE%02d", k)
-		src = hdr + fmt.Sprintf("set_option maxRecDepth 100000 in\n/-- rows [%d, %d) with idx %% %d = 0: additionally the server replay in both sync orders and the snapshot-seeded\n"+
-			"    third client agree (kernel evaluation) -/\n"+
-			"theorem ext%02d : ∀ c ∈ chunk%02d, c.idx %% %d = 0 → convergesExt c = true := by decide +kernel\n\nend Yorkie.Tree.Matrix\n",
-			k*trChunk, min(len(cases), (k+1)*trChunk), trExtStride, k, k, trExtStride)
-		if err := os.WriteFile(filepath.Join(c.Out, ef+".lean"), []byte(src), 0o644); err != nil {
+		lo, hi := k*trChunk, min(len(cases), (k+1)*trChunk)
+		var sb2 strings.Builder
+		sb2.WriteString(hdr)
+		sb2.WriteString(fmt.Sprintf("/-! rows [%d, %d): the two editors converge with clone = root, the server replay in both sync orders and the\n"+
+			"    snapshot-seeded third client (snapshot after the first / second sync) agree with them (kernel evaluation) -/\n\n", lo, hi))
+		np := (hi - lo + trPart - 1) / trPart
+		rest := fmt.Sprintf("chunk%02d", k)
+		glue := ""
+		for j := 0; j < np; j++ {
+			last := j == np-1
+			piece := fmt.Sprintf("(%s).take %d", rest, trPart)
+			if last {
+				piece = rest
+			}
+			sb2.WriteString(fmt.Sprintf("set_option maxRecDepth 100000 in\ntheorem ext%02d_%d : ∀ c ∈ %s, convergesExt c = true := by decide +kernel\n\n", k, j, piece))
+			if last {
+				glue += fmt.Sprintf("ext%02d_%d", k, j) + strings.Repeat(")", np-1)
+			} else {
+				glue += fmt.Sprintf("forall_mem_of_parts _ %d ext%02d_%d (", trPart, k, j)
+				rest = fmt.Sprintf("(%s).drop %d", rest, trPart)
+			}
+		}
+		sb2.WriteString(fmt.Sprintf("theorem ext%02d : ∀ c ∈ chunk%02d, convergesExt c = true :=\n  %s\n\nend Yorkie.Tree.Matrix\n", k, k, glue))
+		if err := os.WriteFile(filepath.Join(c.Out, ef+".lean"), []byte(sb2.String()), 0o644); err != nil {
 			return err
 		}
-		imports = append(imports, "import YorkieModel.Lemmas."+cf, "import YorkieModel.Lemmas."+ef)
-		cnames = append(cnames, fmt.Sprintf("conv%02d", k))
+		imports = append(imports, "import YorkieModel.Lemmas."+ef)
 		enames = append(enames, fmt.Sprintf("ext%02d", k))
 	}
 	var ab strings.Builder
 	ab.WriteString("/- GENERATED by `yk-harness tree stream=leantable`: assembles the per-chunk kernel evaluations. -/\n")
 	ab.WriteString(strings.Join(imports, "\n") + "\nnamespace Yorkie.Tree.Matrix\nopen Yorkie Yorkie.Tree\n\n")
-	ab.WriteString("theorem chunks_converge : ∀ ch ∈ chunks, ∀ c ∈ ch, converges c = true := by\n  unfold chunks\n  simp only [List.forall_mem_cons]\n")
-	ab.WriteString("  refine ⟨" + strings.Join(cnames, ", ") + ", ?_⟩\n  intro ch h; cases h\n\n")
-	ab.WriteString(fmt.Sprintf("theorem chunks_converge_ext : ∀ ch ∈ chunks, ∀ c ∈ ch, c.idx %% %d = 0 → convergesExt c = true := by\n  unfold chunks\n  simp only [List.forall_mem_cons]\n", trExtStride))
+	ab.WriteString("theorem chunks_converge_ext : ∀ ch ∈ chunks, ∀ c ∈ ch, convergesExt c = true := by\n  unfold chunks\n  simp only [List.forall_mem_cons]\n")
 	ab.WriteString("  refine ⟨" + strings.Join(enames, ", ") + ", ?_⟩\n  intro ch h; cases h\n\n")
 	ab.WriteString("end Yorkie.Tree.Matrix\n")
 	if err := os.WriteFile(filepath.Join(c.Out, "TreeMatrixAll.lean"), []byte(ab.String()), 0o644); err != nil {
